@@ -397,9 +397,15 @@ def check_step(sched, step, pre, post, r):
                 # (which starter files init chooses to create is not what the statement constrains)
                 continue
             if key == tcfg + '/settings.yaml' and ch == 'changed':
-                if post[key].startswith(pre[key]):
+                o, n = pre[key], post[key]
+                if not n.startswith(o):
+                    bad('INIT', rel, 'rewritten (old bytes are not a prefix)')
                     continue
-                bad('INIT', rel, 'rewritten (old bytes are not a prefix)')
+                nl = ('\n', '\r') if isinstance(o, str) else (b'\n', b'\r')
+                if o and not o.endswith(nl) and not n[len(o):len(o) + 1] in nl:
+                    # "may only gain appended *lines*": what is added begins on a line of its own, the user's last line
+                    # (which has no line terminator) stays the line it was
+                    bad('INIT', rel, 'last line altered (text appended to an unterminated last line)')
                 continue
             if key == csvp and ch == 'deleted' and may_migrate:
                 baks = [c for p, c in post.items() if p.startswith(csvp + '.bak') and c is not None]
